@@ -175,15 +175,17 @@ func TestRaceStress(t *testing.T) {
 			}
 		}(path)
 	}
-	wg.Add(1)
-	go func() {
-		defer wg.Done()
-		for ctx.Err() == nil {
-			_, _ = reg.Gather()
-			bump("scrape")
-			time.Sleep(time.Millisecond)
-		}
-	}()
+	for k := 0; k < 2; k++ { // two scrapers (two Prometheus servers, or one and a curl): their scrapes overlap
+		wg.Add(1)
+		go func() {
+			defer wg.Done()
+			for ctx.Err() == nil {
+				_, _ = reg.Gather()
+				bump("scrape")
+				time.Sleep(time.Millisecond)
+			}
+		}()
+	}
 	t0 := time.Now()
 	wg.Add(1)
 	go func() {
@@ -287,6 +289,7 @@ func TestRaceCold(t *testing.T) {
 		act(func() { _, _ = cl[2].Evaluate() }) // a fourth fan on the nested curve
 		act(func() { _ = internal.VerifUpdateSensor(s) })
 		act(func() { _, _ = creg.Gather() })
+		act(func() { _, _ = creg.Gather() })
 		act(func() {
 			req := httptest.NewRequest(http.MethodGet, "/curve/top"+sfx+"/", nil)
 			rest.ServeHTTP(httptest.NewRecorder(), req)
@@ -320,6 +323,32 @@ func TestRaceCold(t *testing.T) {
 			writeScript(hang, "sleep 5\n")
 			act(func() { _, _ = util.SafeCmdExecution(hang, nil, 20*time.Millisecond) })
 			act(func() { _, _ = util.SafeCmdExecution(hang, nil, 20*time.Millisecond) })
+		}
+		{
+			// sensors and a fan on REAL files (the interposer of the harness is not in the way): polled, scraped and read
+			// back at the same time through util.ReadIntFromFile
+			rdir := filepath.Join(dir, "real"+sfx)
+			must(os.MkdirAll(rdir, 0755))
+			var rs []sensors.Sensor
+			for k := 0; k < 2; k++ {
+				pth := filepath.Join(rdir, fmt.Sprintf("temp%d", k))
+				writeInt(pth, 40000+k*987)
+				s2, err := sensors.NewSensor(configuration.SensorConfig{ID: fmt.Sprintf("rs%d%s", k, sfx), File: &configuration.FileSensorConfig{Path: pth}})
+				must(err)
+				s2.SetMovingAvg(40000)
+				sensors.RegisterSensor(s2)
+				rs = append(rs, s2)
+				act(func() { _ = internal.VerifUpdateSensor(s2) })
+			}
+			rreg := prometheus.NewRegistry()
+			rreg.MustRegister(statistics.NewSensorCollector(rs))
+			act(func() { _, _ = rreg.Gather() })
+			act(func() { _, _ = rreg.Gather() })
+			ppath := filepath.Join(rdir, "pwm")
+			writeInt(ppath, 123)
+			rf, err := fans.NewFan(configuration.FanConfig{ID: "rf" + sfx, Curve: "top" + sfx, File: &configuration.FileFanConfig{Path: ppath}})
+			must(err)
+			act(func() { _, _ = rf.GetPwm() })
 		}
 		close(gate)
 		cw.Wait()
